@@ -248,18 +248,45 @@ pub static STALL_CTX: std::sync::Mutex<Option<StallCtx>> = std::sync::Mutex::new
 /// terminates) this is a violation with a replayable case (sub-check + rank); for every other
 /// property the check cannot complete and says so (exit 2), pointing at C03.
 pub fn stalled(rank: u64, secs: u64) -> ! {
-    let g = STALL_CTX.lock().unwrap_or_else(|e| e.into_inner());
-    let (prop, tier, sub, ev_dir) = match g.as_ref() {
+    let what = format!("did not return within {} s: the code under test does not terminate on this case", secs);
+    end_run_at(rank, "no-answer", &what, &["C03", "C12"], "non-termination is a violation of C03 — run ./check C03")
+}
+
+/// Called from the SIGABRT handler: the code under test aborted the process while a worker was
+/// on `rank` (a panic that cannot unwind — in this code base: std's check of the precondition of
+/// an unchecked conversion such as from_utf8_unchecked in a build with debug assertions — or an
+/// explicit abort). C03 states that parsing never aborts; C17 that no ill-formed str is ever
+/// created, which is what the precondition check reports.
+pub fn aborted(rank: Option<u64>) -> ! {
+    match rank {
+        Some(r) => end_run_at(r, "process-abort", "aborted the process (non-unwinding panic: an unsafe precondition such as from_utf8_unchecked on ill-formed bytes was violated, or abort() was called)", &["C03", "C17"], "an abort while parsing is a violation of C03 and, for unchecked UTF-8 conversions, of C17 — run ./check C03 / ./check C17"),
+        None => {
+            eprintln!("MACHINERY: the process aborted outside a worker thread");
+            unsafe { _exit(2) }
+        }
+    }
+}
+
+extern "C" {
+    fn _exit(code: i32) -> !;
+}
+
+fn end_run_at(rank: u64, kind: &str, what_happened: &str, violation_for: &[&str], pointer: &str) -> ! {
+    // (never blocks: a poisoned or held lock must not keep the process alive)
+    let g = STALL_CTX.try_lock();
+    let (prop, tier, sub, ev_dir) = match g.as_ref().ok().and_then(|g| g.as_ref()) {
         Some(c) => (c.prop.clone(), c.tier.clone(), c.sub.clone(), c.ev_dir.clone()),
         None => ("?".into(), "quick".into(), "?".into(), ".".into()),
     };
-    let what = format!("rank {} of sub-check '{}' did not return within {} s: the code under test does not terminate on this case", rank, sub, secs);
-    if prop == "C03" || prop == "C12" {
+    let secs = 0u64;
+    let _ = secs;
+    let what = format!("rank {} of sub-check '{}' {}", rank, sub, what_happened);
+    if violation_for.contains(&prop.as_str()) {
         let rp_dir = format!("{}/replays/{}", ev_dir, prop);
         let _ = std::fs::create_dir_all(&rp_dir);
         let path = format!("{}/stall.json", rp_dir);
         let body = json!({
-            "property": prop, "sub": sub, "kind": "no-answer", "class": format!("no-answer:{}", sub),
+            "property": prop, "sub": sub, "kind": kind, "class": format!("{}:{}", kind, sub),
             "witness": format!("sub-check={} rank={}", sub, rank), "detail": what,
             "case": {"stalled_sub": sub, "stalled_rank": rank, "tier": tier},
             "replay_cmd": format!("./check --replay {}", path),
@@ -270,19 +297,22 @@ pub fn stalled(rank: u64, secs: u64) -> ! {
             "coverage": {"evaluations": rank.max(1), "distinct_nontrivial": 1, "rule": format!("[{}] interrupted: {}", sub, what),
                 "samples": [{"sub": sub, "case": format!("rank {}", rank)}], "exhaustive": false,
                 "explanation": "the exploration was cut short by the watchdog because one case did not return; nothing after it was explored"},
-            "assumptions": [format!("a single bounded case needs far less than {} s", secs)],
+            "assumptions": ["a single bounded case returns within the watchdog limit and does not abort the process"],
             "wall_s": 0.0, "violations": 1,
-            "violation_classes": [{"sub": sub, "kind": "no-answer", "class": format!("no-answer:{}", sub), "witness": format!("rank {}", rank), "detail": what, "occurrences_in_class": 1, "replay": path}],
+            "violation_classes": [{"sub": sub, "kind": kind, "class": format!("{}:{}", kind, sub), "witness": format!("rank {}", rank), "detail": what, "occurrences_in_class": 1, "replay": path}],
             "known_findings_hit": [],
         });
         let _ = std::fs::create_dir_all(&ev_dir);
         let _ = std::fs::write(format!("{}/{}.json", ev_dir, prop), serde_json::to_string_pretty(&ev).unwrap());
-        eprintln!("  violation class [{} / no-answer / no-answer:{}] x1: witness rank {} -- {}", sub, sub, rank, what);
+        eprintln!("  violation class [{} / {} / {}:{}] x1: witness rank {} -- {}", sub, kind, kind, sub, rank, what);
         println!("VIOLATION property={} replay={}", prop, path);
-        std::process::exit(1);
+        use std::io::Write;
+        let _ = std::io::stdout().flush();
+        let _ = std::io::stderr().flush();
+        unsafe { _exit(1) }
     }
-    eprintln!("MACHINERY: {} (property {}; non-termination is a violation of C03 — run ./check C03; to look at this case: MC_ONLY_RANK={} mc {} --tier {} --only {})", what, prop, rank, prop, tier, sub);
-    std::process::exit(2);
+    eprintln!("MACHINERY: {} (property {}; {}; to look at this case: MC_ONLY_RANK={} mc {} --tier {} --only {})", what, prop, pointer, rank, prop, tier, sub);
+    unsafe { _exit(2) }
 }
 
 impl Sub {
